@@ -20,7 +20,7 @@ RULE = (
 )
 
 INIT_LOG = []
-CLASS_NAMES = ["FlatA", "FlatB", "Top", "Mid", "Leaf", "Derived", "SVert"]
+CLASS_NAMES = ["FlatA", "FlatB", "Top", "Mid", "Leaf", "Derived", "SVert", "EmptyReg", "NoBool"]
 ARGS = [(), (1,), (2, 3), ("x",), (None,), ([1, 2],), (0,), (False,)]
 KWARGS = [{}, {"a": 1}, {"b": [1]}, {"a": None, "b": 2}]
 
@@ -53,6 +53,16 @@ def make_classes():
     class Derived(Base, metaclass=Meta2):
         pass
 
+    class EmptyReg(Base, metaclass=singleton.TrueSingleton):
+        """Registry-like singleton whose instance is falsy (len 0)."""
+
+        def __len__(self):
+            return 0
+
+    class NoBool(Base, metaclass=singleton.TrueSingleton):
+        def __bool__(self):
+            return False
+
     class SVert(Vertex, metaclass=singleton.TrueSingleton):
         def __init__(self, *args, **kwargs):
             INIT_LOG.append((type(self).__name__, id(self), args, dict(kwargs)))
@@ -60,7 +70,7 @@ def make_classes():
 
     # start from a clean table whatever ran before in this process
     singleton.clear_true_singleton()
-    return {c.__name__: c for c in (FlatA, FlatB, Top, Mid, Leaf, Derived, SVert)}
+    return {c.__name__: c for c in (FlatA, FlatB, Top, Mid, Leaf, Derived, SVert, EmptyReg, NoBool)}
 
 
 def run_history(ops):
@@ -163,7 +173,7 @@ def prelude():
     N = lambda c, a=0, k=0: {"op": "new", "c": c, "a": a, "k": k}  # noqa
     C = lambda c: {"op": "clear", "c": c}  # noqa
     ALL = {"op": "clear_all"}
-    for a, b in (("FlatA", "FlatB"), ("Top", "Mid"), ("Mid", "Top"), ("Leaf", "Top"), ("Derived", "FlatA"), ("SVert", "Mid")):
+    for a, b in (("FlatA", "FlatB"), ("Top", "Mid"), ("Mid", "Top"), ("Leaf", "Top"), ("Derived", "FlatA"), ("SVert", "Mid"), ("EmptyReg", "FlatA"), ("NoBool", "EmptyReg")):
         out.append([N(a, 1), N(b, 2, 1), N(a, 3), C(a), N(a, 2), N(b), C(b), C(b), N(b, 1), ALL, N(a), N(b), C(a), ALL, ALL,
                     N(b, 4), N(a, 5, 2), C(b), N(a), N(b)])
         out.append([C(a), N(a, 7), ALL, C(a), N(a, 6), N(a, 1)])
@@ -174,7 +184,7 @@ def prelude():
 def floors(ctx):
     q = ctx.tier == "quick"
     return {"evaluations": 5000 if q else 50000, "histories": 200 if q else 2000, "repeat_constructions": 1000,
-            "clears": 500, "histories_with_subclass_chain": 50}
+            "clears": 500, "histories_with_subclass_chain": 50, "histories_with_falsy_instances": 50}
 
 
 def judge(ctx, ops):
@@ -185,6 +195,8 @@ def judge(ctx, ops):
     ctx.count("clears", clears)
     if {"Top", "Mid", "Leaf"} & {o.get("c") for o in ops}:
         ctx.count("histories_with_subclass_chain")
+    if {"EmptyReg", "NoBool"} & {o.get("c") for o in ops}:
+        ctx.count("histories_with_falsy_instances")
     if repeats and clears and ntouched >= 2:
         ctx.nontrivial(ops)
     if found and not ctx.should_shrink(found[0][0]):
